@@ -187,7 +187,7 @@ def u_subgraph_scanning(with_time_limit):
 
 
 
-def u_get_lowerbound_k(cls="MinFlowDecomp", relpath="flowpaths/minflowdecomp.py"):
+def u_get_lowerbound_k(cls="MinFlowDecomp", relpath="flowpaths/minflowdecomp.py", cyc=False, P="C03"):
     """MinFlowDecomp.get_lowerbound_k: the glue of the lower bounds.
     ensures  the value is the MAXIMUM of: the caller's `lowerbound_k` option (default 1); ceil(log2(number of distinct integer flow values on the non-ignored edges)) when
              there is such an edge; the width of the s-t DAG with the synthetic source/sink edges AND the ignored edges left out; the min-gen-set bound / the
@@ -222,8 +222,11 @@ def u_get_lowerbound_k(cls="MinFlowDecomp", relpath="flowpaths/minflowdecomp.py"
 
         class StG:
             source_sink_edges = None
-            def __init__(self, G):
+            def __init__(self, G, additional_starts=None, additional_ends=None):
                 calls.append("stDAG")
+                if cyc:
+                    c.prove("pre:the-s-t-graph-of-the-bound-is-built-with-the-model's-additional-starts-and-ends",
+                            z3.BoolVal(G is me.G and additional_starts is me.additional_starts and additional_ends is me.additional_ends), prop=P, kind="pre")
                 self.source_sink_edges = SSE()
             def get_width(self, edges_to_ignore=None):
                 ok = isinstance(edges_to_ignore, Union) and edges_to_ignore.parts == ("source_sink_edges", "edges_to_ignore")
@@ -264,6 +267,7 @@ def u_get_lowerbound_k(cls="MinFlowDecomp", relpath="flowpaths/minflowdecomp.py"
         me.G = GG()
         me.optimization_options = Opts()
         me.edges_to_ignore = ("IGNORED-EDGES",)
+        me.additional_starts, me.additional_ends = ["START"], ["END"]
         me.flow_attr = "flow"
         st.update(nd=nd, me=me, LOG=LOG)
 
@@ -281,13 +285,15 @@ def u_get_lowerbound_k(cls="MinFlowDecomp", relpath="flowpaths/minflowdecomp.py"
         r = f(me)
         want = z3.If(has_opt, optlb, z3.IntVal(1))
         mx = lambda a, b: z3.If(a >= b, a, b)
-        want = z3.If(nd > 0, mx(want, LOG(nd)), want)
+        if not cyc:
+            want = z3.If(nd > 0, mx(want, LOG(nd)), want)
         want = mx(want, width)
         want = z3.If(z3.And(use_mgs, z3.Not(mgs_none)), mx(want, mgs), want)
-        want = z3.If(z3.And(use_scan, z3.Not(scan_none)), mx(want, scan), want)
+        if not cyc:
+            want = z3.If(z3.And(use_scan, z3.Not(scan_none)), mx(want, scan), want)
         c.prove("post:the-bound=max(option-or-1,-ceil(log2(#distinct-values))-if-any,-width,-min-gen-set-bound-if-on,-scanning-bound-if-on)", lift(r) == want, prop=P)
         c.prove("post:the-bound-is-cached", z3.BoolVal(me._lowerbound_k is r or (isinstance(me._lowerbound_k, Sym) and z3.eq(lift(me._lowerbound_k), lift(r)))), prop=P)
-        c.prove("post(auxiliary):the-optional-bounds-are-computed-iff-their-option-is-on", z3.And(z3.BoolVal("mgs" in calls) == use_mgs, z3.BoolVal("scan" in calls) == use_scan), prop=None)
+        c.prove("post(auxiliary):the-optional-bounds-are-computed-iff-their-option-is-on", z3.And(z3.BoolVal("mgs" in calls) == use_mgs, z3.BoolVal("scan" in calls) == (use_scan if not cyc else z3.BoolVal(False))), prop=None)
         n0 = len(calls)
         r2 = f(me)
         c.prove("post:a-second-call-returns-the-cached-bound-without-recomputing", z3.And(z3.BoolVal(len(calls) == n0), lift(r2) == lift(r)), prop=P)
@@ -327,6 +333,8 @@ def u_get_lowerbound_k(cls="MinFlowDecomp", relpath="flowpaths/minflowdecomp.py"
     class StdagProxy:
         @staticmethod
         def stDAG(G): return st["stdag"](G)
+        @staticmethod
+        def stDiGraph(G, additional_starts=None, additional_ends=None): return st["stdag"](G, additional_starts=additional_starts, additional_ends=additional_ends)
 
     class ClsProxy:
         use_min_gen_set_lowerbound = False
@@ -334,12 +342,16 @@ def u_get_lowerbound_k(cls="MinFlowDecomp", relpath="flowpaths/minflowdecomp.py"
 
     class EdgesOf:
         pass
-    from vf.replay import replay_lowerbound_k
-    return Unit(relpath, cls + ".get_lowerbound_k", h, replay=replay_lowerbound_k, globs={"utils": UtilsStub, "math": MathProxy(), "stdag": StdagProxy, "set": set_, "len": len_, cls: ClsProxy, "list": lambda x: x}, props=[P],
+    from vf.replay import replay_lowerbound_k, replay_lowerbound_k_cycles
+    return Unit(relpath, cls + ".get_lowerbound_k", h, replay=(replay_lowerbound_k_cycles if cyc else replay_lowerbound_k), globs={"utils": UtilsStub, "math": MathProxy(), "stdag": StdagProxy, "stdigraph": StdagProxy, "set": set_, "len": len_, cls: ClsProxy, "list": lambda x: x}, props=[P],
                 
                 callee_contracts=["stDAG.get_width (C09)", "_get_lowerbound_with_min_gen_set, _get_lowerbound_with_subgraph_scanning (own units)"],
                 assumptions=["A4 (not proved): every component is a lower bound on the minimum number of paths", "ceil(log2(n)) is an uninterpreted integer function of n",
                              "the set of distinct integer flow values is opaque: only its size is used; that it ranges over exactly the value-carrying, non-ignored edges is a checked clause"])
+
+
+def cyc_units():
+    return [u_get_lowerbound_k("MinFlowDecompCycles", "flowpaths/minflowdecompcycles.py", cyc=True, P="C04")]
 
 
 def all_units():
